@@ -28,10 +28,11 @@ SM_ASSUME = [
 ]
 
 
-def mkjob(shape, K, budget, ext_per_iter=1, nsn_depth=1, variant=0, double_nsn=False, rewrite=False, ext=True, sym_durations=True, by_ref=False):
+def mkjob(shape, K, budget, ext_per_iter=1, nsn_depth=1, variant=0, double_nsn=False, rewrite=False, ext=True, sym_durations=True, by_ref=False,
+          default_acts=False):
     tg, et = TARGETS[shape]
     return dict(shape=shape, variant=variant, sym_durations=sym_durations,
-                cfg=dict(K=K, act_budget=budget, nsn_depth=nsn_depth, targets=tg, ext_targets=et, engage_by_reference=by_ref,
+                cfg=dict(K=K, act_budget=budget, nsn_depth=nsn_depth, targets=tg, ext_targets=et, engage_by_reference=by_ref, default_acts=default_acts,
                          ext_menu="full" if ext else "engage-only",
                          ext_per_iter=ext_per_iter, double_nsn=double_nsn, rewrite_durations=rewrite))
 
@@ -94,13 +95,15 @@ class C01(SMSpec):
             return ([mkjob(s, 3, 2) for s in ("S1", "S3", "S4", "S5")] + [mkjob("S4", 2, 1, ext_per_iter=2, variant=3), mkjob("S3", 2, 1, ext_per_iter=2, variant=3)]
                     + [mkjob("S1", 2, 2, double_nsn=True, variant=4), mkjob("S3", 2, 1, double_nsn=True, variant=5)]
                     + [self.stepjob(s) for s in ("S3", "S4")]
-                    + [mkjob("S11", 5, 0, ext=False, variant=2), mkjob("S8", 4, 0, ext=False, variant=1)])
+                    + [mkjob("S11", 5, 0, ext=False, variant=2), mkjob("S8", 4, 0, ext=False, variant=1)]
+                    + [mkjob("S4", 3, 1, variant=5, default_acts=True), mkjob("S8", 3, 1, ext=False, variant=2, default_acts=True)])
         return ([mkjob(s, 4, 2, variant=1) for s in ("S1", "S3", "S4", "S5")]
                 + [mkjob(s, 3, 3, ext_per_iter=2, nsn_depth=2, variant=2, double_nsn=True) for s in ("S1", "S3", "S4", "S5")]
                 + [self.stepjob(s, 2, 1) for s in ("S1", "S3", "S4", "S5", "S8")])
 
     def reach_required(self, tier):
-        return ["regular-invoked", "suppressed-no-engage", "stopped-iteration-with-default", "engaged-iteration", "double-nsn"]
+        return ["regular-invoked", "suppressed-no-engage", "stopped-iteration-with-default", "engaged-iteration", "double-nsn",
+                "default-state-requests-transition"]
 
     def clause_fn(self, c, H):
         cl.clauses_c01(c, H)
